@@ -58,9 +58,6 @@ func init() {
 		}
 		tb := i.tb
 		i.ps.assume(tb.And(tb.Cmp(opSle, tb.Const(64, uint64(lo)), t), tb.Cmp(opSle, t, tb.Const(64, uint64(hi)))))
-		if i.sol.check() == resUnsat {
-			panic(pathAbort{kind: "assume"})
-		}
 		return int(int64(i.concretize(t, "vrt.Range "+name)))
 	})
 	reg("Choice", func(fr *frame, args []value) value {
@@ -80,13 +77,7 @@ func init() {
 				panic(pathAbort{kind: "assume"})
 			}
 		case *Term:
-			i.ps.assume(c)
-			// Make sure the path stays feasible (keeps the invariant used by decide).
-			if r := i.sol.check(); r == resUnsat {
-				panic(pathAbort{kind: "assume"})
-			} else if r == resUnknown {
-				i.ps.unknown = true
-			}
+			i.assumeChecked(c)
 		}
 		return nil
 	})
@@ -138,6 +129,15 @@ func init() {
 			return v
 		}
 		return args[1]
+	})
+	reg("Ghost", func(fr *frame, args []value) value {
+		i := fr.i
+		if i.sh.opts.pin != nil {
+			return nil
+		}
+		g := i.nondetVar(strArg(args[0]), types.Typ[types.Bool]).(*Term)
+		i.ps.assume(i.tb.Eq(g, i.toTerm(args[1])))
+		return nil
 	})
 	reg("Symbolic", func(fr *frame, args []value) value { return fr.i.sh.opts.pin == nil })
 }
@@ -238,6 +238,10 @@ func extVrtAssert(fr *frame, args []value) value {
 		return nil
 	case *Term:
 		tb := i.tb
+		c = ps.simplify(c)
+		if c.isConst() {
+			return extVrtAssert(fr, []value{args[0], c.c != 0})
+		}
 		if ps.pos < len(ps.prefix) {
 			// replayed decision: assertion already examined on an earlier run of this prefix
 			v := ps.prefix[ps.pos]
@@ -283,7 +287,13 @@ func (i *interpreter) knownOnly(label string, nc *Term) bool {
 	i.violLit = nc
 	var kfs []knownFinding
 	for _, k := range sh.known {
-		if k.Label == label && (k.Harness == "" || k.Harness == sh.hname) {
+		match := k.Label == label
+		for _, l := range k.Labels {
+			if l == label {
+				match = true
+			}
+		}
+		if match && (k.Harness == "" || k.Harness == sh.hname) {
 			kfs = append(kfs, k)
 		}
 	}
@@ -328,4 +338,35 @@ func (i *interpreter) rawPred(k knownFinding) *Term {
 		args = append(args, tb.Var(name, w))
 	}
 	return tb.intern(&Term{op: opRaw, w: 0, name: k.SMT, args: args})
+}
+
+// assumeChecked adds c to the path condition and makes sure the path stays
+// feasible (the invariant decide relies on). The feasibility check is recorded
+// as a decision so that replays of the prefix skip it.
+func (i *interpreter) assumeChecked(c *Term) {
+	ps := i.ps
+	if ps.pos < len(ps.prefix) {
+		v := ps.prefix[ps.pos]
+		ps.pos++
+		ps.trace = append(ps.trace, v)
+		ps.assume(c)
+		return
+	}
+	ps.pos++
+	ps.trace = append(ps.trace, 1)
+	if ps.lastModel != nil {
+		if v, ok := c.eval(ps.lastModel, map[int]*big.Int{}); ok && v.Sign() != 0 {
+			ps.assume(c)
+			return
+		}
+	}
+	ps.assume(c)
+	switch i.sol.check() {
+	case resUnsat:
+		panic(pathAbort{kind: "assume"})
+	case resUnknown:
+		ps.unknown = true
+	case resSat:
+		ps.fetchModel()
+	}
 }
